@@ -855,6 +855,9 @@ func checkIn(cfg checkCfg, scratch string, t0 time.Time) int {
 			fmt.Printf("KNOWN-FINDING: property=%s %s\n", propertyID, kf.What)
 			continue
 		}
+		if v.Class == "no-progress" && v.Engine == "sim" && sequentialAlsoStalls(sp, v) {
+			fail2("an operation exceeds the per-operation step budget even when the tasks run one after the other without preemption (%s); the budget is too small for this tree - a harness limit, not a progress violation", oneLine(v.Detail, 200))
+		}
 		nviol++
 		if nviol > 8 {
 			continue // enough distinct reports; the rest is counted only
@@ -921,4 +924,20 @@ func removeStale(base string) {
 			os.RemoveAll(filepath.Join(base, e.Name()))
 		}
 	}
+}
+
+// sequentialAlsoStalls re-executes the failing case of a no-progress candidate
+// with the tasks run to completion one after the other. If an operation still
+// exceeds the step budget there, the operation is simply long (or the budget
+// too small): that is not a progress violation under concurrency.
+func sequentialAlsoStalls(sp *simProc, v *Violation) bool {
+	if len(v.Cases) == 0 {
+		return false
+	}
+	cases := append([]Case(nil), v.Cases...)
+	last := cloneCase(cases[len(cases)-1])
+	last.Spec.Sched = Sched{Policy: "rtc", Seed: last.Spec.Sched.Seed}
+	cases[len(cases)-1] = last
+	ok, _, _ := tryCases(sp, cases, v)
+	return ok
 }
